@@ -174,7 +174,7 @@ Record CInv (f4 cl : bool) (tbl ab : list nat) (c : nat) (k : conn) : Prop := {
   (* repair f43: a callback past beginNegotiation is recorded; Stop has closed what is recorded *)
   ci_neg : f4 = true -> negotiating_pc (setup k) = true -> neg k = true;
   ci_negc : cl = true -> neg k = true -> lopen k = false;
-  ci_nacc : setup k = IAccept -> neg k = false }.
+  ci_nacc : neg k = true -> negotiating_pc (setup k) = true \/ setup_done (setup k) = true }.
 
 Definition snd_ok (cs : list conn) (p : npc) : Prop :=
   match p with
@@ -285,6 +285,15 @@ Ltac cinv :=
        intros Hin;
        match goal with H : In _ _ -> setup _ = SetupErr |- _ => specialize (H Hin); congruence end);
   try (intros; congruence);
+  try (let Hn := fresh "Hn" in
+       intros Hn;
+       match goal with
+       | H : neg ?k = true -> negotiating_pc (setup ?k) = true \/ setup_done (setup ?k) = true |- _ =>
+           let E0 := fresh "E0" in
+           destruct (H Hn) as [E0|E0];
+           repeat match goal with E : setup k = _ |- _ => rewrite E in E0 end;
+           try discriminate; first [left; reflexivity|right; reflexivity|now left|now right]
+       end);
   try (let F := fresh "F" in
        intros F _;
        match goal with
@@ -466,7 +475,8 @@ Proof.
     destruct (nth_error (conns s) c) as [k|] eqn:Ek; [|discriminate].
     destruct (setup k) eqn:Es; try discriminate.
     destruct (Ic _ _ Ek) as [H1 H2 H3 H4 H5 H6 H7 H8]. rewrite Es in H3.
-    pose proof (H8 Es) as Hng.
+    assert (Hng : neg k = false).
+    { destruct (neg k) eqn:En; auto. destruct (H8 eq_refl) as [E|E]; rewrite Es in E; discriminate. }
     destruct (f43 fx) eqn:E4; [destruct (closed s) eqn:Ecl|]; inversion H; subst; clear H.
     + (* the router is closed: refused and closed *)
       apply Inv_conn_step with (k := k); auto. cinv; try discriminate.
@@ -547,7 +557,8 @@ Proof.
            ++ intros Hin. specialize (H5 Hin). destruct Hreg as [E|E]; congruence.
            ++ intros F Hn. apply H6; auto. destruct Hreg as [E|E]; rewrite E; [|reflexivity].
               unfold x in Hn. rewrite E in Hn. discriminate.
-           ++ intros E. destruct Hx as [E'|E']; congruence.
+           ++ intros Hn. destruct (H8 Hn) as [E0|E0]; destruct Hreg as [E|E]; rewrite E in E0; try discriminate.
+              left. unfold x. rewrite E. reflexivity.
         -- rewrite Ecl. apply CInv_tbl_add. auto.
       * intros c1 Hc. rewrite upd_length. apply in_app_or in Hc as [Hc|[<-|[]]]; auto.
         eapply nth_error_lt; eauto.
@@ -887,13 +898,18 @@ Proof. intros R. apply (inv_crash _ _ (reachable_inv _ _ _ R)). Qed.
 
 Definition hm (h : hpc) : nat :=
   match h with HDisp _ => 5 | HRecv => 4 | HGot _ => 3 | HExitClose => 2 | HExitDone => 1 | _ => 0 end.
-Definition hmf (k : conn) : nat := hm (hd k).
+Definition nm (x : spc) : nat :=
+  match x with IRecvId => 4 | ICheck => 3 | IRegister => 2 | ILaunch => 1 | _ => 0 end.
+Definition nmf (k : conn) : nat := if neg k then S (nm (setup k)) else 0.
+Definition hmf (k : conn) : nat := hm (hd k) + nmf k.
 
-(* steps a handleConn goroutine takes by itself once its connection is closed
-   (no message, no peer, no timer is needed) *)
+(* steps the handleConn goroutines and the Listen callbacks under negotiation take by
+   themselves once their connection is closed (no message, no peer, no timer is needed:
+   receiveServerIdentity fails because Stop closed the connection) *)
 Definition handler_action (a : action) : Prop :=
   match a with
-  | AHRecvErr _ | AHCheck _ | AHDispatch _ | AHExitClose _ | AHExitDone _ => True
+  | AHRecvErr _ | AHCheck _ | AHDispatch _ | AHExitClose _ | AHExitDone _
+  | ARecvIdFail _ | ACheckPeer _ _ | ARegister _ | ALaunch _ | AEnd _ => True
   | _ => False
   end.
 
@@ -907,29 +923,65 @@ Proof.
   assert (Hin : In c (table s)) by auto. specialize (H1 Hc Hin).
   assert (M : forall k', sumf hmf (upd (conns s) c k') + hmf k = sumf hmf (conns s) + hmf k').
   { intros k'. apply sumf_upd; auto. }
+  unfold hmf in M at 2 4.
   destruct (hd k) as [| |x|m| | | |] eqn:Eh; try discriminate.
   - exists (AHRecvErr c). eexists. split; [exact Logic.I|]. cbn. rewrite Hk, Eh, H1. cbn.
     split; [reflexivity|]. cbn. repeat split; auto.
-    specialize (M (set_hd k (HGot None))). unfold hmf in M at 2 4. rewrite Eh in M. cbn in M. lia.
+    specialize (M (set_hd k (HGot None))). unfold nmf in M. cbn in M. lia.
   - exists (AHCheck c). eexists. split; [exact Logic.I|]. cbn. rewrite Hk, Eh, Hc.
     split; [reflexivity|]. cbn. repeat split; auto.
-    specialize (M (set_hd k HExitClose)). unfold hmf in M at 2 4. rewrite Eh in M. cbn in M. lia.
+    specialize (M (set_hd k HExitClose)). unfold nmf in M. cbn in M. lia.
   - exists (AHDispatch c). eexists. split; [exact Logic.I|]. cbn. rewrite Hk, Eh.
     split; [reflexivity|]. cbn. repeat split; auto.
-    specialize (M (set_hd k HRecv)). unfold hmf in M at 2 4. rewrite Eh in M. cbn in M. lia.
+    specialize (M (set_hd k HRecv)). unfold nmf in M. cbn in M. lia.
   - exists (AHExitClose c). eexists. split; [exact Logic.I|]. cbn. rewrite Hk, Eh.
     split; [reflexivity|]. cbn. repeat split; auto.
-    specialize (M (set_hd (close_conn k) HExitDone)). unfold hmf in M at 2 4. rewrite Eh in M. cbn in M. lia.
+    specialize (M (set_hd (close_conn k) HExitDone)). unfold nmf in M. cbn in M. lia.
   - pose proof (live_count_pos _ _ _ Hk) as P. rewrite Eh in P. specialize (P eq_refl).
     rewrite <- (inv_wg _ _ I) in P. destruct (wg s) as [|n] eqn:Ew; [lia|].
     exists (AHExitDone c). eexists. split; [exact Logic.I|]. cbn. rewrite Hk, Eh, Ew.
     split; [reflexivity|]. cbn. repeat split; auto.
-    specialize (M (set_hd k HExitRemove)). unfold hmf in M at 2 4. rewrite Eh in M. cbn in M. lia.
+    specialize (M (set_hd k HExitRemove)). unfold nmf in M. cbn in M. lia.
 Qed.
 
-(* From every reachable state in which the closed flag is set, the handler
-   goroutines alone - each by finitely many of its own steps, without any message,
-   peer action or time-out - bring the wait group to zero: wg.Wait() returns. *)
+(* a callback under negotiation ends by its own steps once the router is closed *)
+Lemma neg_progress fx s c k :
+  Inv fx s -> closed s = true -> nth_error (conns s) c = Some k -> neg k = true ->
+  exists a s', handler_action a /\ step fx s a = Some s' /\
+               sumf hmf (conns s') < sumf hmf (conns s) /\
+               closed s' = true /\ stops s' = stops s /\ senders s' = senders s.
+Proof.
+  intros I Hc Hk Hn. destruct (inv_conn _ _ I _ _ Hk) as [H1 H2 H3 H4 H5 H6 H7 H8].
+  assert (M : forall k', sumf hmf (upd (conns s) c k') + hmf k = sumf hmf (conns s) + hmf k').
+  { intros k'. apply sumf_upd; auto. }
+  unfold hmf in M at 2 4. unfold nmf in M. rewrite Hn in M.
+  pose proof (nth_error_lt _ _ _ Hk) as Lt.
+  destruct (H8 Hn) as [Np|Sd].
+  - destruct (setup k) eqn:Es; try discriminate.
+    + exists (ARecvIdFail c). eexists. split; [exact Logic.I|]. cbn. rewrite Hk, Es.
+      split; [reflexivity|]. cbn. repeat split; auto.
+      specialize (M (set_setup (close_conn k) SetupErr)). cbn in M. rewrite Hn in M. cbn in M. lia.
+    + exists (ACheckPeer c true). eexists. split; [exact Logic.I|]. cbn. rewrite Hk, Es.
+      split; [reflexivity|]. cbn. repeat split; auto.
+      specialize (M (set_setup k IRegister)). cbn in M. rewrite Hn in M. cbn in M. lia.
+    + exists (ARegister c). eexists. split; [exact Logic.I|]. cbn. rewrite Hk, Es, Hc.
+      split; [reflexivity|]. unfold give_up. destruct (f11 fx); cbn; repeat split; auto.
+      * specialize (M (set_setup (close_conn k) SetupErr)). cbn in M. rewrite Hn in M. cbn in M. lia.
+      * specialize (M (set_setup k SetupErr)). cbn in M. rewrite Hn in M. cbn in M. lia.
+    + exists (ALaunch c). eexists. split; [exact Logic.I|]. cbn. rewrite Hk, Es, Hc.
+      split; [reflexivity|]. unfold give_up. destruct (f11 fx); cbn; repeat split; auto.
+      * specialize (M (set_setup (close_conn k) SetupErr)). cbn in M. rewrite Hn in M. cbn in M. lia.
+      * specialize (M (set_setup k SetupErr)). cbn in M. rewrite Hn in M. cbn in M. lia.
+  - pose proof (neg_count_pos _ _ _ Hk Hn) as P.
+    rewrite <- (inv_wg _ _ I) in P. destruct (wg s) as [|n] eqn:Ew; [lia|].
+    exists (AEnd c). eexists. split; [exact Logic.I|]. cbn. rewrite Hk, Hn, Sd, Ew. cbn.
+    split; [reflexivity|]. cbn. repeat split; auto.
+    specialize (M (set_neg k false)). cbn in M. lia.
+Qed.
+
+(* From every reachable state in which the closed flag is set, the handler goroutines and
+   the callbacks under negotiation alone - each by finitely many of its own steps, without
+   any message, peer action or time-out - bring the wait group to zero: wg.Wait() returns. *)
 Theorem handlers_drain fx s :
   Inv fx s -> closed s = true ->
   exists hacts s', Forall handler_action hacts /\ run fx s hacts = Some s' /\
@@ -937,12 +989,15 @@ Theorem handlers_drain fx s :
 Proof.
   remember (sumf hmf (conns s)) as n eqn:En. revert s En.
   induction n as [n IH] using lt_wf_ind. intros s En I Hc.
-  destruct (Nat.eq_dec (count_live (conns s)) 0) as [Z|NZ].
+  destruct (Nat.eq_dec (count_busy (conns s)) 0) as [Z|NZ].
   - exists [], s. cbn. split; [constructor|]. split; [reflexivity|].
     split; [now rewrite (inv_wg _ _ I)|]. split; [auto|]. split; [auto|]. split; [auto|]. exact I.
   - destruct (sumf_zero_ex _ _ NZ) as (c & k & Hk & Hl).
-    assert (L : live (hd k) = true) by (unfold livef in Hl; destruct (live (hd k)); auto; cbn in Hl; congruence).
-    destruct (handler_progress _ _ _ _ I Hc Hk L) as (a & s1 & Ha & Hs & Hm & Hc1 & Hst & Hse).
+    assert (exists a s1, handler_action a /\ step fx s a = Some s1 /\ sumf hmf (conns s1) < sumf hmf (conns s) /\
+                         closed s1 = true /\ stops s1 = stops s /\ senders s1 = senders s)
+      as (a & s1 & Ha & Hs & Hm & Hc1 & Hst & Hse).
+    { unfold wgf in Hl. destruct (live (hd k)) eqn:L; [eapply handler_progress; eauto|].
+      destruct (neg k) eqn:Ng; [eapply neg_progress; eauto|]. cbn in Hl. congruence. }
     pose proof (step_inv _ _ _ _ I Hs) as I1.
     destruct (IH (sumf hmf (conns s1))) with (s := s1) as (hacts & s2 & F & R & W & C2 & St & Se & I2); auto.
     { lia. }
@@ -979,6 +1034,7 @@ Proof. intros H. destruct pc; auto; cbn; rewrite H; eauto. Qed.
 
 Definition sm (x : spc) : nat :=
   match x with
+  | IAccept => 5
   | OSendId | IRecvId => 4 | ICheck => 3 | ORegister | IRegister => 2 | OLaunch | ILaunch => 1
   | SetupOk | SetupErr => 0
   end.
